@@ -70,6 +70,10 @@ def run():
     trig = trigger_shape(smtext)
     for nm, ir in (("cs_enter_ir", enter), ("cs_exit_ir", exit_), ("cs_reset_ir", reset), ("cs_ctor_ir", ctor)):
         body += "Definition %s : list hstmt := [%s].\n" % (nm, "; ".join(ir))
+    thr_trigger, thr_loop, starts = threaded_ir(text, smtext)
+    body += "Definition cs_trigger_thr_ir : list tstmt := [%s].  (* Trigger<E>, SM_THREAD_1, after the event object is built *)\n" % "; ".join(thr_trigger)
+    body += "Definition cs_dispatch_loop_ir : list tstmt := [%s].  (* body of the dispatch thread's while(true) *)\n" % "; ".join(thr_loop)
+    body += "Definition cs_ctor_starts_dispatch_thread : bool := %s.\n" % starts
     body += "Definition cs_trigger_dispatches_synchronously : bool := %s.  (* Trigger<E>: state.Trigger<E>(controller, this, evt) when SM_THREAD_0 *)\n" % trig
     return write_gen("CsTmpl.v", body, [SOURCE, SM_SOURCE])
 
@@ -130,6 +134,66 @@ def member_ir(text, header_rx, what):
     except csmini.CsError as e:
         raise Refuse("%s: %s" % (what, e))
     return to_ir(m.body, what)
+
+
+def threaded_ir(text, smtext):
+    """The THREADED configuration (SM_THREAD_1) as IR: what Trigger<Event> does after building the event object, the body of
+    the dispatch loop, and that the constructor starts a thread running Dispatch. Unknown statements -> Refuse."""
+    strip = lambda t: "\n".join(l for l in t.split("\n") if not l.strip().startswith("#define"))   # noqa
+    N = lambda n: ("name", n)   # noqa
+    clean, _ = csmini.preprocess(strip(smtext), {"SM_THREAD_1"})
+    m = re.search(r"public void Trigger<<<EVENTNAME>>>\(<<<SIGNATURE>>>\)\s*\{(.*?)\n        \}", clean, re.S)
+    if not m:
+        raise Refuse("Trigger<Event> (threaded) not found")
+    lines = [l.strip() for l in m.group(1).split("\n") if l.strip()]
+    if lines[:2] != ["<<<EVENTNAME>>> evt = new ();", "<<<EVENTMEMBERSLITEINSTANTIATE=evt>>>"]:
+        raise Refuse("Trigger<Event> (threaded) does not start by building the event object: %r" % lines[:2])
+    trig = []
+    for l in lines[2:]:
+        if l == "dispatchQ.Enqueue(evt);":
+            trig.append("QEnqueue")
+        elif re.fullmatch(r"\w+\.Set\(\);", l):
+            trig.append("QSet")
+        else:
+            raise Refuse("Trigger<Event> (threaded): statement outside the modelled shapes: %r" % l)
+    iclean, _ = csmini.preprocess(strip(text), {"SM_THREAD_1"})
+    ms = list(re.finditer(r"internal void Dispatch\(\)\s*\{", iclean))
+    if len(ms) != 1:
+        raise Refuse("Dispatch(): expected exactly one definition in the threaded configuration")
+    depth, i0 = 0, ms[0].end() - 1
+    for j in range(i0, len(iclean)):
+        depth += iclean[j] == "{"
+        depth -= iclean[j] == "}"
+        if depth == 0:
+            break
+    try:
+        meth = csmini.parse_method_text(detag(iclean[ms[0].start():j + 1]), "TAGSTATEMACHINENAMEStateMachine")
+    except csmini.CsError as e:
+        raise Refuse("Dispatch(): %s" % e)
+    b = meth.body[1]
+    if not (len(b) == 1 and b[0][0] == "while" and b[0][1] == ("lit", True) and b[0][2][0] == "block"):
+        raise Refuse("Dispatch(): not a single while(true) { ... } loop")
+    loop = []
+    for st in b[0][2][1]:
+        if st == ("if", ("call", N("dispatchQ"), "TryDequeue", None, [("out", "IDispatchable", "next")]),
+                  ("block", [("expr", ("call", N("next"), "Dispatch", None, [("this",), N("controller")]))]), None):
+            loop.append("QTryDequeueDispatch")
+        elif st[0] == "expr" and st[1][0] == "call" and st[1][1] == N("Thread") and st[1][2] == "Sleep" and len(st[1][4]) == 1:
+            loop.append("QSleep")
+        elif st[0] == "expr" and st[1][0] == "call" and st[1][2] == "WaitOne" and st[1][4] == [] and st[1][1][0] == "name":
+            fld = st[1][1][1]
+            if not re.search(r"AutoResetEvent\s+%s\b" % re.escape(fld), iclean):
+                raise Refuse("Dispatch(): WaitOne on %s, which is not declared as an AutoResetEvent" % fld)
+            loop.append("QWaitOne")
+        else:
+            raise Refuse("Dispatch(): statement outside the modelled shapes: %r" % (st,))
+    flat = re.sub(r"\s+", " ", clean)
+    starts = "dispatchThread = new Thread(new ThreadStart(Dispatch)) { IsBackground = true }; dispatchThread.Start();" in flat
+    if not starts:
+        raise Refuse("constructor (threaded) does not start the dispatch thread on Dispatch")
+    if "internal ConcurrentQueue<IDispatchable> dispatchQ = new ();" not in re.sub(r"\s+", " ", iclean):
+        raise Refuse("dispatchQ is not a ConcurrentQueue<IDispatchable> created empty")
+    return trig, loop, "true"
 
 
 def trigger_shape(smtext):
